@@ -77,11 +77,12 @@ func processFileServices(plugin *protogen.Plugin, file *protogen.File, format op
 }
 
 func createServiceGenerator(
-	_ *protogen.File,
+	file *protogen.File,
 	service *protogen.Service,
 	format openapiv3.OutputFormat,
 ) *openapiv3.Generator {
 	generator := openapiv3.NewGenerator(format)
+	generator.SetGoPackageName(string(file.GoPackageName))
 
 	// Collect all messages referenced by this service, including those from other files
 	generator.CollectReferencedMessages(service)
